@@ -737,12 +737,15 @@ impl Resolver {
             Some(cond) => Some(self.expression(&cond)?),
             None => None,
         };
+        let ss = self.stack.len();
         let body = self.block(&branch.body)?;
+        self.stack.truncate(ss);
         let span = branch.span;
         Ok(IfBranch { condition, body, span })
     }
 
     fn case_branch(&mut self, branch: &ParserCaseBranch) -> ResolveResult<CaseBranch> {
+        let ss = self.stack.len();
         let variable = &branch
             .variable
             .as_ref()
@@ -754,6 +757,7 @@ impl Resolver {
                 Some(stmt) => body.push(stmt),
             }
         }
+        self.stack.truncate(ss);
         Ok(CaseBranch {
             pattern: branch.pattern.clone(),
             variable: *variable,
@@ -819,7 +823,12 @@ impl Resolver {
                     branches.push(self.case_branch(branch)?);
                 }
                 let fall_through = match fall_through {
-                    Some(x) => Some(self.block(x)?),
+                    Some(x) => {
+                        let ss = self.stack.len();
+                        let block = self.block(x)?;
+                        self.stack.truncate(ss);
+                        Some(block)
+                    }
                     None => None,
                 };
                 E::Case { to_match, branches, fall_through, span }
@@ -961,10 +970,12 @@ impl Resolver {
             }
             SK::Loop { condition, body } => {
                 let condition = self.expression(condition)?;
+                let ss = self.stack.len();
                 let body = match self.statement(body)? {
                     Some(body) => vec![body],
                     None => Vec::new(),
                 };
+                self.stack.truncate(ss);
                 Some(S::Loop { condition, body, span })
             }
             SK::Break => Some(S::Break(span)),
